@@ -39,7 +39,7 @@ pub static DEF: CheckDef = CheckDef {
 };
 
 fn families(t: Tier) -> Vec<(&'static str, u64)> {
-    vec![("iff", t.n(6_000, 360_000)), ("flow", t.n(30_000, 2_400_000)), ("clones", t.n(2_000, 200_000))]
+    vec![("iff", t.n(6_000, 360_000)), ("flow", t.n(30_000, 2_400_000)), ("clones", t.n(2_000, 200_000)), ("model-input", t.n(1_500, 150_000))]
 }
 fn floors(_t: Tier) -> Vec<(&'static str, u64)> {
     vec![
@@ -406,10 +406,107 @@ fn run_clones(ctx: &mut Ctx, r: &mut Rng) {
     }
 }
 
+/// A tracked array the caller keeps reaches a Model through a temporary - a reshaped view, a product with 1 - that
+/// nothing else refers to. The temporary is a result of a tracked operand, so the model's output is tracked through
+/// it and the pass delivers a gradient of the kept array's dimensions; whether the caller also keeps the temporary
+/// makes no difference.
+fn run_model_input(ctx: &mut Ctx, r: &mut Rng) {
+    use crate::nn::*;
+    use corgi::cost::{self, CostFunction};
+    use corgi::layer::Layer;
+    use corgi::model::Model;
+    use corgi::optimizer::gd::GradientDescent;
+    let spec = gen_net(r, false);
+    let params = gen_params(r, &spec, false);
+    let input = gen_input(r, &spec, false);
+    let out = match forward_ref::<f64>(&spec, &params, &input) {
+        Some((o, _)) => o,
+        None => return,
+    };
+    let target = gen_target(r, &out.dims);
+    let how = r.below(3);
+    let freeze_all = r.chance(1, 4);
+    let desc = format!("model-input|{}|via={}|parameters-frozen={}", spec.describe(), ["reshape", "times-one", "flat-then-reshape"][how], freeze_all);
+    ctx.case(&desc, true);
+    ctx.sample("model-input", || desc.clone());
+    let run = |keep_temporary: bool| {
+        guard(|| {
+            let a = Acts::new();
+            let mut layers = build_layers(&spec, &a, &params);
+            if freeze_all {
+                for l in layers.iter_mut() {
+                    for p in l.parameters() {
+                        p.stop_tracking();
+                    }
+                }
+            }
+            let costf: CostFunction = if spec.ce { cost::cross_entropy() } else { cost::mse() };
+            let opt = GradientDescent::new(0.0);
+            let x = arr_t(&input).tracked();
+            let n = x.values().len();
+            let mk = |x: &Array| match how {
+                0 => x.reshape(x.dimensions().to_vec()),
+                1 => x * (1.0 as Float),
+                _ => x.reshape(vec![n]).reshape(x.dimensions().to_vec()),
+            };
+            let refs: Vec<&mut dyn Layer> = layers.iter_mut().map(|s| s as &mut dyn Layer).collect();
+            let mut model = Model::new(refs, &opt, &costf);
+            let kept: Option<Array>;
+            let out = if keep_temporary {
+                let v = mk(&x);
+                let o = model.forward(v.clone());
+                kept = Some(v);
+                o
+            } else {
+                kept = None;
+                model.forward(mk(&x))
+            };
+            let tracked_out = is_tracked(&out);
+            let _ = model.backward(arr_t(&target));
+            drop(kept);
+            (tracked_out, grad_of(&x), is_tracked(&x))
+        })
+    };
+    let (a, b) = (run(false), run(true));
+    match (a, b) {
+        (Ok((ta, ga, fa)), Ok((tb, gb, fb))) => {
+            ctx.meta(|| format!("{} {} {:?}", desc, ta, ga.as_ref().map(|g| g.0.clone())));
+            ctx.count("model_inputs_checked", 1);
+            if !ta || !tb {
+                ctx.violation("C09|model-input|output-untracked", format!("{}: the input is a result of a tracked array but the model's output is untracked (temporary passed directly: {}, temporary kept: {})", desc, ta, tb));
+                return;
+            }
+            if !fa || !fb {
+                ctx.violation("C09|model-input|flag-changed", format!("{}: the kept array's tracking flag was switched off", desc));
+                return;
+            }
+            match (&ga, &gb) {
+                (Some((da, va)), Some((db, vb))) => {
+                    if da != &input.dims || db != &input.dims {
+                        ctx.violation("C09|model-input|gradient-dims", format!("{}: gradient dims {:?} / {:?}, array dims {:?}", desc, da, db, input.dims));
+                    } else if va.iter().map(|x| x.to_bits()).ne(vb.iter().map(|x| x.to_bits())) {
+                        ctx.violation("C09|model-input|depends-on-keeping-the-temporary", format!("{}: the kept array's gradient differs between passing the temporary directly {} and keeping a handle to it {}", desc, short(va), short(vb)));
+                    }
+                }
+                _ => {
+                    ctx.violation(
+                        "C09|model-input|gradient-missing",
+                        format!("{}: the tracked array the input was derived from received no gradient (temporary passed directly: {}, temporary kept: {})", desc, ga.is_some(), gb.is_some()),
+                    );
+                }
+            }
+        }
+        (Err(m), _) | (_, Err(m)) => {
+            ctx.violation(&format!("C09|model-input|panic:{}", panic_class(&m)), format!("{} panicked: {}", desc, m));
+        }
+    }
+}
+
 pub fn run_case(ctx: &mut Ctx, fam: &str, k: u64, r: &mut Rng) {
     match fam {
         "iff" => run_iff(ctx, k, r),
         "flow" => run_flow(ctx, r),
+        "model-input" => run_model_input(ctx, r),
         _ => run_clones(ctx, r),
     }
 }
